@@ -74,6 +74,22 @@ def r15_1(ctx):
                       "ExecutionError::Skipped only when the exit code equals the configured skip code (%s)" % why,
                       "ExecutionError::Skipped is constructed without a dominating `exit code == skip_document_code` guard: a document is skipped "
                       "although no test case asked for it (or the comparison is inverted)")
+    # the skip code compared in the per-test-case executor is that of the very test case that was just run
+    st = prog.impl_fn("StatefulExecutor", "Executor", "execute_all")
+    ost = Origins(st)
+    gs = [(bb, t) for bb, t in st.calls() if (callee_name(t) or "").endswith("get_skip_document_code")]
+    runs = [bb for bb, t in st.calls() if mname(t) == "Runner::run"]
+    ctx.check(len(gs) == 1, "stateful-skip-source-site", st.where(), "one skip-code lookup in StatefulExecutor::execute_all", "found %d skip-code lookups" % len(gs))
+    for bb, t in gs:
+        recv = ost.operand(t["args"][0])
+        from_item = recv.has_call("Iterator::next") and any(n.kind == "call" and "Enumerate<" in n.a for n in recv.walk())
+        other = recv.has_call("slice::first", "slice::last", "slice::get", "Vec::first", "Iterator::nth")
+        rt = st.blocks[runs[0]]["term"] if runs else None
+        same = rt is not None and st.canon_place(rt["args"][2].get("copy") or rt["args"][2].get("move"))["l"] == st.canon_place(t["args"][0].get("copy") or t["args"][0].get("move"))["l"] if rt else False
+        same = same or (rt is not None and peel(ost.operand(rt["args"][2])).show()[:60] == peel(recv).show()[:60].replace(".config", ""))
+        ctx.check(from_item and not other, "stateful-skip-source", st.loc(bb),
+                  "the skip code is looked up on the test case of the current loop iteration (the one whose exit code is compared)",
+                  "the skip code is taken from %s, not from the test case that just ran: a test case's own `skip_document_code` is ignored / another one's is applied" % peel(recv).show()[:100])
     n_status = len(list(all_aggregates(prog, "ExitStatus", "Skipped")))
     ctx.check(n_status == 0, "exitstatus-skipped-unconstructed", "-", "ExitStatus::Skipped is never constructed (skip is signalled through the exit code only)",
               "ExitStatus::Skipped is constructed at %d site(s)" % n_status)
@@ -174,7 +190,7 @@ def r15_4(ctx):
 
 
 def run(ctx):
-    ctx.run_rule("R15.1", "who-may-construct ExecutionError::Skipped: only the executors, only under `exit code == configured skip code`; ExitStatus::Skipped never constructed [E-SITE]", r15_1, floor=6)
+    ctx.run_rule("R15.1", "who-may-construct ExecutionError::Skipped: only the executors, only under `exit code == skip code of the test case that ran`; ExitStatus::Skipped never constructed [E-SITE]", r15_1, floor=8)
     ctx.run_rule("R15.2", "TestCaseError::Skipped only in the test command: all test cases in the Skipped arm, the unexecuted remainder in the Timeout arm [E-SITE]", r15_2, floor=3)
     ctx.run_rule("R15.3", "the Skipped arm touches only count_skipped and continues with the next document [E-PATH]", r15_3, floor=2)
     ctx.run_rule("R15.4", "skip code default: unwrap_or(DEFAULT_SKIP_DOCUMENT_CODE) == 80 [E-TABLE]", r15_4, floor=2)
